@@ -25,7 +25,7 @@ FILE_POOL = ["a.py", "a.pyc", "a.pyo", "b.pyc", "c.pyo", "d.py", "x.pyc.bak", ".
              "__init__.py", "__init__.pyc", "g.PY", "h.pyc", "h.py", ".py", "tests.pyc", "mod.pyo", "mod.py", "ä.pyc"]
 DIR_POOL = ["pkg", "sub", "__pycache__", ".git", ".svn", "CVS", "_darcs", "not-ident", "node_modules", "deep", "x.y", "Ünï",
             "git", "svn", ".tox", "tox", "arch-ids", ".arch-ids", "{arch}", "__pycache__.old", "old__pycache__",
-            "__pycache__2", "CVS2", "_darcs.bak"]
+            "__pycache__2", "CVS2", "_darcs.bak", "build[1]", "build1", "de?p", "mod.py", "a.py", "h.py"]
 # the documented defaults of --ignore_dir (cross-checked with the argparse default regenerated into Facts)
 DEFAULT_IGNORE = [".git", ".svn", "CVS", "{arch}", ".arch-ids", "_darcs"]
 
@@ -36,6 +36,8 @@ def gen_tree(rng, depth):
     if depth > 0:
         for n in rng.sample(DIR_POOL, rng.randint(0, 3)):
             subs.append([n, gen_tree(rng, depth - 1)])
+    # a name is a file or a directory, not both (directories named like sources exist: "mod.py/")
+    files = [f for f in files if f not in {n for n, _ in subs}]
     return {"files": files, "subs": subs}
 
 
@@ -44,7 +46,14 @@ def materialize(tree, d, rng=None, store=None):
     created there and linked into the tree (the walk follows symlinked directories like real ones).  The store's
     path is a character-wise prefix of the tree's path, and one link may point at the store itself."""
     os.makedirs(d, exist_ok=True)
+    sub_names = {n for n, _ in tree["subs"]}
     for f in tree["files"]:
+        if f in sub_names:
+            continue        # one entry per name: the directory wins (the tree handed to the model says the same)
+        if rng is not None and f.endswith(".py") and rng.random() < 0.08:
+            # a source that is a dangling symbolic link: still an entry of the directory listing
+            os.symlink(os.path.join(d, "no-such-target"), os.path.join(d, f))
+            continue
         with open(os.path.join(d, f), "w") as fh:
             fh.write("content of %s\n" % f)
     for n, t in tree["subs"]:
@@ -66,6 +75,9 @@ def snapshot(d):
     for root, dirs, files in os.walk(d, followlinks=True):
         for f in files:
             p = os.path.join(root, f)
+            if os.path.islink(p) and not os.path.exists(p):
+                out[os.path.relpath(p, d)] = ("dangling-link", os.readlink(p))
+                continue
             st = os.stat(p)
             out[os.path.relpath(p, d)] = (st.st_size, hashlib.sha256(open(p, "rb").read()).hexdigest(), st.st_mode)
         for x in dirs:
@@ -129,7 +141,7 @@ def run(ctx):
             roots.append(roots[0])
         keep = rng.random() < 0.15
         usec = rng.random() < 0.15
-        extra_ignore = rng.choice([["deep"], [".tox"], ["deep", "sub"]]) if rng.random() < 0.3 else []
+        extra_ignore = rng.choice([["deep"], [".tox"], ["deep", "sub"], ["build[1]"], ["de?p"], ["bu*"]]) if rng.random() < 0.35 else []
         cases.append((tree, roots, keep, usec, extra_ignore, i % 10 == 0))
     queries = []
     reals = []
